@@ -1664,14 +1664,14 @@ Qed.
 Lemma trylock_never_blocks t c g l :
   (match at_ l with M_try _ | P_try _ | S_acq (AcTry _) => True | _ => False end) -> exists r, tstep t c g l = Some r.
 Proof.
-  destruct l as [pr p hd fu]. cbn [at_]. destruct p; try contradiction; [apply always_on_step; reflexivity..|].
+  destruct l as [pr p hd fu]. cbn [at_]. destruct p; try contradiction; [intros _; apply always_on_step; reflexivity..|].
   destruct a; try contradiction. intros _. unfold tstep, tstep0, acq_shared. cbn [at_].
   destruct (shcap g); eexists; reflexivity.
 Qed.
 (* a timed shared try-lock returns at the latest when its time is up (choice 2) *)
 Lemma timed_gives_up t g l h : at_ l = S_acq (AcFor h) -> exists r, tstep t 2 g l = Some r.
 Proof.
-  intros Hp. unfold tstep, tstep0, acq_shared. rewrite Hp. rewrite orb_true_r. destruct (shcap g); eexists; reflexivity.
+  intros Hp. unfold tstep, tstep0, acq_shared. rewrite Hp. cbn [Nat.eqb]. rewrite !orb_true_r. destruct (shcap g); eexists; reflexivity.
 Qed.
 
 Lemma pc_has_loc ls u : pcof ls u <> Idle -> exists l, nth_error ls u = Some l /\ at_ l = pcof ls u.
@@ -1764,3 +1764,253 @@ Section Progress.
     destruct (quiescent_shape s t l HR HQ Hl) as [H|[a [_ [_ [u [_ [_ C]]]]]]]; [exact H|]. rewrite Hn in C. discriminate.
   Qed.
 End Progress.
+
+(* ================================================================== *)
+(* C06: the next access made while nothing else is going on drains the queue *)
+(* ================================================================== *)
+(* no call in progress and no handle alive *)
+Definition quiet (s : sysD) : Prop := forall u, pcof (thr s) u = Idle /\ nown (hand (locof (thr s) u)) = O.
+Definition solo (t : nat) (cs : list nat) : list (nat * nat) := map (fun c => (t, c)) cs.
+(* the pcs of a lock_shared / try_lock_shared* / load / modify_* call after its check of the flag and its swap *)
+Definition postq (p : pc) : bool :=
+  match p with
+  | S_acq _ | P_unlock _ | DI_unlockl _ _ | T_lock _ _ _ | F_call _ | F_rdb _ | F_rde _ | F_wrb _ _ | F_wre _ _
+  | T_unlock _ _ _ | M_unlock _ _ => true
+  | _ => false
+  end.
+(* access is granted by the next step: the shared acquisition, or the caller's own functor on the direct path *)
+Definition granted (p : pc) : bool := match p with S_acq _ | F_call (BD _) => true | _ => false end.
+
+Definition KS (t : nat) (s : sysD) : Prop :=
+  (forall u, u <> t -> pcof (thr s) u = Idle /\ nown (hand (locof (thr s) u)) = O) /\
+  (nown (hand (locof (thr s) t)) = O -> postq (pcof (thr s) t) = true -> queue (gl s) = []).
+
+Section Solo.
+  Variables (g : glob) (ls : list loc) (t : nat) (l : loc).
+  Hypothesis HI : Inv g ls.
+  Hypothesis Hoth : forall u, u <> t -> pcof ls u = Idle /\ nown (hand (locof ls u)) = O.
+  Hypothesis Hl : nth_error ls t = Some l.
+
+  Lemma solo_free : nown (hand l) = O -> holdsX (at_ l) = false -> holdsS (at_ l) = false -> free_x g = true.
+  Proof.
+    intros Hn Hx Hs. destruct HI as [[HX _ _ _] _ _ _ _].
+    assert (Z : forall u, shl (locof ls u) = O /\ holdsX (pcof ls u) = false).
+    { intros u. destruct (Nat.eq_dec u t) as [->|Hne].
+      - rewrite (locof_at _ _ _ Hl), (pcof_at _ _ _ Hl). unfold shl. rewrite Hn, Hs, Hx. auto.
+      - destruct (Hoth u Hne) as [E1 E2]. unfold shl. rewrite E2. unfold pcof in E1. rewrite E1. cbn. unfold pcof. rewrite E1. auto. }
+    unfold free_x. destruct (owner g) as [a|] eqn:Eo.
+    - exfalso. destruct (Z a) as [Z1 Z2]. destruct (X2 _ _ HX a Eo) as [C|[_ C]]; [congruence|lia].
+    - destruct (shcap g) eqn:Hc; [|reflexivity]. rewrite (X3 _ _ HX Hc). apply Nat.eqb_eq. apply sum_all_zero. intros u. apply Z.
+  Qed.
+
+  Lemma solo_flag : clr (at_ l) = false -> cphase (at_ l) <> PhPushed -> flag g = false -> queue g = [].
+  Proof.
+    intros Hc Hph Hf. destruct HI as [_ _ HS _ _]. destruct (queue g) as [|x q] eqn:Eq; [reflexivity|exfalso].
+    assert (In x (queue g)) as Hin by (rewrite Eq; left; reflexivity).
+    assert (Pc : forall u, clr (pcof ls u) = false /\ (forall y, ctask (pcof ls u) = Some y -> u = t)).
+    { intros u. destruct (Nat.eq_dec u t) as [->|Hne]; [rewrite (pcof_at _ _ _ Hl); auto|].
+      destruct (Hoth u Hne) as [E _]. rewrite E. split; [reflexivity|discriminate]. }
+    destruct (S7 _ _ HS x Hin) as [B|[B|[u B]]]; [|congruence|rewrite (proj1 (Pc u)) in B; discriminate].
+    destruct (S4 _ _ HS t x) as (C1 & C2 & C3); [apply in_or_app; right; exact Hin|].
+    pose proof (S3 _ _ HS x C1 B) as D. pose proof (proj2 (Pc _) _ D) as E. rewrite E in D.
+    destruct (S2 _ _ HS t x D) as (_ & _ & _ & D4). rewrite (pcof_at _ _ _ Hl) in D4.
+    destruct (cphase (at_ l)); tauto.
+  Qed.
+End Solo.
+
+Lemma KS_step t s c : Inv (gl s) (thr s) -> KS t s -> KS t (stepD s (t, c)).
+Proof.
+  intros HI [K1 K2]. unfold step, sys_step.
+  destruct (nth_error (thr s) t) as [l|] eqn:Hl; [|split; assumption].
+  destruct (tstep t c (gl s) l) as [[[g' l'] es]|] eqn:Hs; [|split; assumption].
+  unfold KS. cbn [fst gl thr]. split.
+  - intros u Hne. rewrite (pcof_upd _ _ _ _ _ Hl), (locof_upd _ _ _ _ _ Hl).
+    destruct (Nat.eqb_spec u t); [congruence|]. apply K1. exact Hne.
+  - rewrite (pcof_upd _ _ _ _ _ Hl), (locof_upd _ _ _ _ _ Hl), Nat.eqb_refl.
+    rewrite (pcof_at _ _ _ Hl), (locof_at _ _ _ Hl) in K2.
+    pose proof (solo_free _ _ _ _ HI K1 Hl) as Hfree. pose proof (solo_flag _ _ _ _ HI K1 Hl) as Hflag.
+    destruct l as [pr p hd fu]. cbn [at_ hand] in *.
+    step_cases Hs; gsimp; cbn [hand at_ nown postq]; intros Hn Hpq; try discriminate Hpq; try reflexivity;
+      try (apply K2; [exact Hn|reflexivity]);
+      try (apply Hflag; [reflexivity|cbn; discriminate|first [assumption|reflexivity]]);
+      try (exfalso; assert (false = true) as Habs by (apply Hfree; [exact Hn|reflexivity|reflexivity]); discriminate Habs).
+    all: unfold after_drain, body_done in *; unfold cont in *.
+    all: repeat match goal with H : context [match ?x with _ => _ end] |- _ => destruct x end; try discriminate Hpq.
+    all: try (apply K2; [exact Hn|reflexivity]).
+    all: try (apply Hflag; [reflexivity|cbn; discriminate|first [assumption|reflexivity]]).
+Qed.
+
+Section NextAccess.
+  Variables (m : Z) (th : list Z) (progs : list (list op)).
+  Notation RR := (R m th progs).
+
+  Lemma KS_run t cs : forall s, RR s -> KS t s -> RR (runD s (solo t cs)) /\ KS t (runD s (solo t cs)).
+  Proof.
+    induction cs as [|c cs IH]; intros s HR HK; cbn [solo map run fold_left]; [auto|].
+    apply IH; [apply reachable_step; exact HR|]. apply KS_step; [apply (R_inv _ _ _ _ HR)|exact HK].
+  Qed.
+
+  (* from a state with no call in progress and no handle held, a call of thread t run alone reaches its access
+     point (the shared acquisition, or its own functor) only with an empty queue and every other submitted
+     functor already invoked *)
+  Lemma next_access_drains s0 t cs : RR s0 -> quiet s0 ->
+    let s := runD s0 (solo t cs) in
+    nown (hand (locof (thr s) t)) = O -> postq (pcof (thr s) t) = true ->
+    queue (gl s) = [] /\
+    (granted (pcof (thr s) t) = true ->
+     forall x, (x < ntasks (gl s))%nat -> ctask (pcof (thr s) t) <> Some x -> texec (gh (gl s)) x <> None).
+  Proof.
+    intros HR HQ s Hn Hpq.
+    assert (KS t s0) as HK0. { split; [intros u _; apply HQ|]. intros _ H. rewrite (proj1 (HQ t)) in H. discriminate. }
+    destruct (KS_run t cs s0 HR HK0) as [HRs [K1 K2]]. fold s in HRs, K1, K2.
+    pose proof (K2 Hn Hpq) as Hq. split; [exact Hq|]. intros Hg x Hx Hown He.
+    pose proof (I_S _ _ (R_inv _ _ _ _ HRs)) as HS.
+    assert (Lp : forall u, lpend (pcof (thr s) u) = []).
+    { intros u. destruct (Nat.eq_dec u t) as [->|Hne].
+      - destruct (pcof (thr s) t); try discriminate; try reflexivity. destruct b; [reflexivity|discriminate].
+      - rewrite (proj1 (K1 u Hne)). reflexivity. }
+    destruct (tret (gh (gl s)) x) as [r|] eqn:Er.
+    - destruct (S1r _ _ HS x r Er) as [_ [B|[p [B1 B2]]]]; [congruence|].
+      destruct (S6 _ _ HS x) as [B|[u B]]; [congruence|exact He| |].
+      + rewrite Hq in B. destruct B.
+      + rewrite Lp in B. destruct B.
+    - pose proof (S3 _ _ HS x Hx Er) as C. destruct (Nat.eq_dec (tsub (gh (gl s)) x) t) as [E|Hne].
+      + rewrite E in C. congruence.
+      + rewrite (proj1 (K1 _ Hne)) in C. discriminate.
+  Qed.
+
+  (* ... and on that way both try-locks of the outer mutex succeed: the call takes the drain / direct path *)
+  Lemma solo_trylock_succeeds s0 t cs l : RR s0 -> quiet s0 ->
+    let s := runD s0 (solo t cs) in
+    nth_error (thr s) t = Some l -> nown (hand l) = O ->
+    (match at_ l with M_try _ | P_try _ => True | _ => False end) -> free_x (gl s) = true.
+  Proof.
+    intros HR HQ s Hl Hn Hp.
+    assert (KS t s0) as HK0. { split; [intros u _; apply HQ|]. intros _ H. rewrite (proj1 (HQ t)) in H. discriminate. }
+    destruct (KS_run t cs s0 HR HK0) as [HRs [K1 K2]]. fold s in HRs, K1, K2.
+    apply (solo_free _ _ _ _ (R_inv _ _ _ _ HRs) K1 Hl Hn); destruct (at_ l); try contradiction; reflexivity.
+  Qed.
+End NextAccess.
+
+(* ================================================================== *)
+(* Bounded work: every step decreases a measure (there is no retry loop in this component) *)
+(* ================================================================== *)
+Definition wS (a : acq) : nat := match a with AcLoad => 4%nat | _ => 1%nat end.
+Definition wcont (c : ctx) : nat := match c with CDir _ => 6%nat | CPre a => S (wS a) end.
+Definition wbody (b : bctx) : nat := match b with BD _ => O | BQ c _ r => (1 + 8 * length r + wcont c)%nat end.
+Definition wpc (p : pc) : nat :=
+  (match p with
+   | Idle => 0
+   | M_try _ => 14 | Q_lockt _ => 13 | Q_unlockt _ => 12 | Q_lockl _ => 11 | Q_unlockl _ => 2 | Q_store _ => 1
+   | P_load a => 7 + wS a | P_try a => 6 + wS a
+   | DI_load c => 4 + wcont c | DI_clear c => 3 + wcont c | DI_lockl c => 2 + wcont c
+   | DI_unlockl c lp => 1 + 8 * length lp + wcont c
+   | T_lock c _ r => 8 + 8 * length r + wcont c
+   | F_call b => 6 + wbody b | F_rdb b => 5 + wbody b | F_rde b => 4 + wbody b
+   | F_wrb b _ => 3 + wbody b | F_wre b _ => 2 + wbody b
+   | T_unlock c _ r => 1 + 8 * length r + wcont c
+   | M_unlock _ _ => 1
+   | P_unlock a => 1 + wS a
+   | S_acq a => wS a
+   | L_rdb => 3 | L_rde => 2 | L_unlock _ => 1
+   | H_rdb => 2 | H_rde => 1 | H_rel _ => 1
+   end)%nat.
+Definition wloc (l : loc) : nat := (15 * length (prog l) + wpc (at_ l))%nat.
+Definition mu (s : sysD) : nat := (8 * length (queue (gl s)) + list_sum (map wloc (thr s)))%nat.
+
+Lemma mu_dec s t c : enabledD s t c -> (mu (stepD s (t, c)) < mu s)%nat.
+Proof.
+  intros [l [r [Hl Hs]]]. destruct r as [[g' l'] es].
+  unfold step, sys_step. rewrite Hl, Hs. cbn [fst]. unfold mu. cbn [gl thr].
+  pose proof (sum_upd wloc (thr s) t l l' Hl) as Hsum.
+  assert (8 * length (queue g') + wloc l' < 8 * length (queue (gl s)) + wloc l)%nat; [|lia].
+  clear Hsum Hl. destruct l as [pr p hd fu]. unfold wloc.
+  step_cases Hs; gsimp; cbn [length wpc wS wcont wbody]; rewrite ?app_length; cbn [length]; try lia.
+  all: unfold after_drain, body_done; unfold cont; destruct_goal_matches; cbn [length wpc wS wcont wbody]; try lia.
+Qed.
+
+Lemma bounded_work m th progs s sc : R m th progs s -> (moves glob loc tstep s sc <= mu s)%nat.
+Proof.
+  intros HR.
+  apply (moves_le_mu glob loc tstep mu (fun _ _ => True) (fun _ _ _ _ _ _ _ _ _ _ _ => I) (fun _ => true)); auto.
+  - intros s0 t c _ _. apply mu_dec.
+  - unfold sched_ok. apply forallb_forall. auto.
+Qed.
+
+(* ================================================================== *)
+(* Lemmas exported for the multi-component properties (C02, C07, C15, C20) *)
+(* ================================================================== *)
+(* C02 *)
+Lemma def_rw_exclusion m th progs s t : R m th progs s -> (1 <= shl (locof (thr s) t))%nat ->
+  (forall u, holdsX (pcof (thr s) u) = false) /\
+  (forall u c l g' l' es, nth_error (thr s) u = Some l -> tstep u c (gl s) l = Some (g', l', es) -> holdsX (at_ l') = false).
+Proof.
+  intros HR Hs. split; [apply (rw_exclusion m th progs s t HR Hs)|].
+  intros u c l g' l' es. apply (no_exclusive_starts m th progs s t u c l g' l' es HR Hs).
+Qed.
+Lemma def_readers_share (g : glob) t c l a : shcap g = true -> owner g = None -> at_ l = S_acq a ->
+  exists r, tstep t c g l = Some r.
+Proof. apply readers_share. Qed.
+(* C15 *)
+Lemma def_load_atomic m th progs s t l : R m th progs s -> nth_error (thr s) t = Some l -> at_ l = L_rde ->
+  (1 <= shl l)%nat /\ dirty (gl s) = false /\ (forall u, wropen (pcof (thr s) u) = false) /\
+  (forall u, holdsX (pcof (thr s) u) = false) /\
+  pay (gl s) = enc (tfid (gl s)) (donelog (gh (gl s))) /\
+  forall c, exists g' l', tstep t c (gl s) l = Some (g', l', [E K_RD_END O_PAY (pay (gl s))]) /\ at_ l' = L_unlock (pay (gl s)).
+Proof. apply load_atomic. Qed.
+Lemma def_load_returns (g : glob) t c l v : at_ l = L_unlock v ->
+  exists g' l' e0, tstep t c g l = Some (g', l', [e0; ret v]) /\ at_ l' = Idle.
+Proof. apply load_returns_read_value. Qed.
+(* C20 *)
+Lemma def_exn_direct (g : glob) t c l tk : at_ l = F_call (BD tk) -> tasync g tk = false ->
+  existsb (Z.eqb (calls g)) (throws g) = true ->
+  exists g' l', tstep t c g l = Some (g', l', [E K_CALL 0 (tfid g tk); E K_THROW 0 (calls g)]) /\
+                at_ l' = M_unlock tk true /\ tfut g' tk = FExn /\
+  forall t2 c2 g2 l2, at_ l2 = M_unlock tk true ->
+    exists g3 l3, tstep t2 c2 g2 l2 = Some (g3, l3, [E K_UNLOCK O_MTX 0; E K_CATCH 0 0]) /\ at_ l3 = Idle /\ owner g3 = None.
+Proof.
+  intros Hp Ha Ht. destruct (exn_direct_propagates g t c l tk Hp Ha Ht) as [g' [l' [B1 [B2 B3]]]].
+  exists g', l'. repeat split; auto. intros t2 c2 g2 l2. apply exn_direct_unlocks.
+Qed.
+Lemma def_exn_captured (g : glob) t c l b : at_ l = F_call b ->
+  (match b with BD tk => tasync g tk = true | BQ _ _ _ => True end) ->
+  existsb (Z.eqb (calls g)) (throws g) = true ->
+  exists g' l', tstep t c g l = Some (g', l', [E K_CALL 0 (tfid g (btask b)); E K_THROW 0 (calls g)]) /\
+                tfut g' (btask b) = FExn /\
+                at_ l' = match b with BD tk => M_unlock tk false | BQ c0 tk r => T_unlock c0 tk r end.
+Proof. apply exn_captured. Qed.
+Lemma def_drain_continues (g : glob) t c l c0 tk r : at_ l = T_unlock c0 tk r ->
+  exists g' l', tstep t c g l = Some (g', l', [E K_UNLOCK (O_TASK tk) 0]) /\ at_ l' = after_drain c0 r /\ tmtx g' tk = None.
+Proof. apply drain_continues. Qed.
+Lemma def_idle_holds_nothing m th progs s t : R m th progs s -> pcof (thr s) t = Idle ->
+  lmtx (gl s) <> Some t /\ (forall k, tmtx (gl s) k <> Some t) /\
+  (owner (gl s) = Some t -> shcap (gl s) = false /\ nown (hand (locof (thr s) t)) = 1%nat).
+Proof. apply idle_holds_nothing. Qed.
+(* C07 *)
+Lemma def_windows_disjoint m th progs s u v : R m th progs s -> u <> v -> wropen (pcof (thr s) u) = true ->
+  rdopen (pcof (thr s) v) = false /\ wropen (pcof (thr s) v) = false.
+Proof. apply windows_disjoint. Qed.
+Lemma def_no_fault m th progs s : R m th progs s -> faulted (gl s) = false.
+Proof. apply no_fault. Qed.
+Lemma def_all_atomics_seq_cst t c (g : glob) l g' l' es : tstep t c g l = Some (g', l', es) ->
+  forall e, In e es -> emo e = (if is_atomic_kind (ek e) then MO_SEQ_CST else MO_NA) /\
+                       (is_atomic_kind (ek e) = true -> eo e = O_FLAG).
+Proof. apply all_atomics_seq_cst. Qed.
+
+(* ================================================================== *)
+(* The ghost state is never read by the control flow                    *)
+(* ================================================================== *)
+Definition erase (g : glob) : glob := set_gh g init_ghost.
+Definition erase_res (r : option (glob * loc * list ev)) : option (glob * loc * list ev) :=
+  match r with Some (g', l', es) => Some (erase g', l', es) | None => None end.
+(* replacing the ghost component by anything changes neither enabledness, nor the events, nor the next pc,
+   nor the non-ghost part of the next global state *)
+Lemma ghost_irrelevant t c g l h : erase_res (tstep t c (set_gh g h) l) = erase_res (tstep t c g l).
+Proof.
+  destruct l as [pr p hd fu].
+  unfold tstep, tstep0, start_op, acq_shared, rel_shared, rd_begin, rd_end, wr_begin, wr_end, new_task, free_x, free_s, shcap, timed.
+  cbn [at_ prog hand futs mk throws owner nsh flag lmtx queue pay rdrs dirty faulted calls ntasks tfid tasync tmtx tfut gh set_gh].
+  destruct p; cbn [at_ prog hand futs mk throws owner nsh flag lmtx queue pay rdrs dirty faulted calls ntasks tfid tasync tmtx tfut gh set_gh];
+  repeat match goal with |- context [match ?x with _ => _ end] =>
+           lazymatch x with context [match _ with _ => _ end] => fail | _ => destruct x end end; try reflexivity.
+Qed.
